@@ -158,8 +158,16 @@ func TestVerif_C14(t *testing.T) {
 		hsQuery := make(chan func(), 4)
 		hsStop := make(chan struct{})
 		defer close(hsStop)
-		go func() { // the hostname service's loop, played by the harness
+		holdRel := false // only touched inside the loop goroutine (through hsQuery)
+		go func() {      // the hostname service's loop, played by the harness
 			for {
+				// while releases are held a manager that is winding down stays parked in its
+				// deferred ReleaseHostnames: the window between "manager stopped" and "manager
+				// reaped by the service" stays open for as long as the schedule wants
+				relCh := hs.releases
+				if holdRel {
+					relCh = nil
+				}
 				select {
 				case req := <-hs.requests:
 					rr := req
@@ -169,7 +177,7 @@ func TestVerif_C14(t *testing.T) {
 					}
 					h.rec("host-req")
 					h.arrivals <- &c14Arrival{kind: "host", release: make(chan error, 1), hostReq: &rr}
-				case names := <-hs.releases:
+				case names := <-relCh:
 					hs.doRelease(names)
 					h.rec("host-release")
 				case f := <-hsQuery:
@@ -289,10 +297,29 @@ func TestVerif_C14(t *testing.T) {
 		}
 		_ = waitArrival
 
-		steps := rapid.IntRange(2, 10).Draw(t, "steps")
+		held := rapid.IntRange(0, 2).Draw(t, "holdHostReleasesFromStart") == 0
+		if held {
+			note("host-releases-held(true)")
+			done := make(chan struct{})
+			hsQuery <- func() { holdRel = true; close(done) }
+			<-done
+		}
+		steps := rapid.IntRange(2, 12).Draw(t, "steps")
 		for i := 0; i < steps; i++ {
 			outstanding := pendingHost != nil || pendingOp != nil
-			switch rapid.IntRange(0, 10).Draw(t, "action") {
+			act := rapid.IntRange(0, 12).Draw(t, "action")
+			if held && teardownAccepted && !outstanding && !shutdown && rapid.IntRange(0, 2).Draw(t, "manifestWhileWindingDown") > 0 {
+				act = 0 // a manifest for the lease while its torn-down manager is still winding down
+			}
+			switch act {
+			case 11, 12: // the hostname service stops / resumes taking releases
+				held = rapid.Bool().Draw(t, "holdHostReleases")
+				hold := held
+				note("host-releases-held(%v)", hold)
+				done := make(chan struct{})
+				hsQuery <- func() { holdRel = hold; close(done) }
+				<-done
+				settle(20 * time.Millisecond)
 			case 0, 1, 2: // manifest update
 				if shutdown {
 					continue
@@ -406,6 +433,11 @@ func TestVerif_C14(t *testing.T) {
 
 		// ---- drive to quiescence: answer everything outstanding successfully
 		note("drain")
+		{
+			done := make(chan struct{})
+			hsQuery <- func() { holdRel = false; close(done) }
+			<-done
+		}
 		quiet := 0
 		deadline := time.Now().Add(c14Wait)
 		for quiet < 3 {
